@@ -2,7 +2,9 @@
 import json, os, select, subprocess, time, signal
 
 ROOT = os.path.dirname(os.path.dirname(os.path.abspath(__file__)))
-DRIVER_BIN = os.path.join(ROOT, 'target', 'debug', 'qe-driver')
+# QE_TARGET_DIR: an alternative cargo target directory (used to try a modified engine without disturbing running checks)
+TARGET_DIR = os.environ.get('QE_TARGET_DIR') or os.path.join(ROOT, 'target')
+DRIVER_BIN = os.path.join(TARGET_DIR, 'debug', 'qe-driver')
 WORK = os.path.join(ROOT, 'work')
 
 
